@@ -67,7 +67,7 @@ Proof. vm_compute. reflexivity. Qed.
 (* ------------------------------------------------------------------------------------------------------
    Added in build session 4 (statements re-stated from the proof files by harness tooling; each is closed by
    exact). *)
-From SplipyModel Require Import Proofs.ObjEval Proofs.ReparamEndToEnd Proofs.ReverseEndToEnd Proofs.SwapEndToEnd.
+From SplipyModel Require Import Proofs.ObjEval Proofs.ReparamEndToEnd Proofs.ReverseEndToEnd Proofs.SwapEndToEnd Transfer.ParamObj Transfer.ParamOps Transfer.ParamOps2.
 Open Scope R_scope.
 Theorem C06_reparam_then_evaluate :
   forall (tol : R) (o : obj R) (d : nat) (s e : R) (o' : obj R) (ts : list R),
@@ -294,4 +294,20 @@ Theorem C06_swap_curve :
   forall (o : obj R) (d1 d2 : nat), length (o_bases o) = 1%nat -> obj_swap o d1 d2 = o.
 Proof. exact @swap_curve. Qed.
 Print Assumptions C06_swap_curve.
+
+Theorem C06_executed_is_proved_reverse :
+  forall (o : obj Q) (d : nat), objQ2R (obj_reverse o d) = obj_reverse (objQ2R o) d.
+Proof. exact @obj_reverse_transfer. Qed.
+Print Assumptions C06_executed_is_proved_reverse.
+
+Theorem C06_executed_is_proved_swap :
+  forall (o : obj Q) (d1 d2 : nat), objQ2R (obj_swap o d1 d2) = obj_swap (objQ2R o) d1 d2.
+Proof. exact @obj_swap_transfer. Qed.
+Print Assumptions C06_executed_is_proved_swap.
+
+Theorem C06_executed_is_proved_reparam :
+  forall (o : obj Q) (d : nat) (s e : Q),
+         resmap objQ2R (obj_reparam_dir o d s e) = obj_reparam_dir (objQ2R o) d (Q2R s) (Q2R e).
+Proof. exact @obj_reparam_dir_transfer. Qed.
+Print Assumptions C06_executed_is_proved_reparam.
 
